@@ -1399,7 +1399,7 @@ def install_session_hooks(session):
     event.listen(session, "after_flush_postexec", afp)
 
 
-def explore_with_probes(rec, root, enabled, step, depth, probes=(("flush",), ("commit",))):
+def explore_with_probes(rec, root, enabled, step, depth, probes=(("flush",), ("commit",)), part=0, nparts=1):
     """BFS by replay like vf.engines.hist.explore, plus: at every state on the last level the *probe* operations are
     applied (checked in lock-step like any operation) without extending the search -- so every history of `depth`
     operations is followed by a flush and by a commit.  root = (history, model, key)"""
@@ -1418,7 +1418,9 @@ def explore_with_probes(rec, root, enabled, step, depth, probes=(("flush",), ("c
                 rec.trace()
                 step(h, ms, op)
             continue
-        for op in enabled(ms):
+        for i, op in enumerate(enabled(ms)):
+            if d == 0 and i % nparts != part:
+                continue  # the first operation partitions the shard (work balance); deeper levels are complete
             rec.transition()
             rec.trace()
             out = step(h, ms, op)
